@@ -18,10 +18,10 @@ Lemma wt_write_sim i p wf w0 : sim i wf w0 ->
   let '(m0, e0, w0') := wt_write p w0 in
   (sim i wf' w0' /\ mf = m0 /\ ef = e0 /\ ef = None /\ mf = lenN p) \/ broken i wf' w0'.
 Proof.
-  intros (Hf & Hp & Hc & Hle & Ha & Ha0 & Hf0). unfold wt_write. rewrite Hf, Hf0, Ha, Ha0.
+  unfold sim, broken, intact. intros (Hf & Hp & Hc & Hle & Ha & Ha0 & Hf0). unfold wt_write. rewrite Hf, Hf0, Ha, Ha0.
   destruct (N.eqb_spec i (wt_calls wf)) as [E|E].
-  - right. rewrite split_at_spec. cbn. repeat split; try reflexivity. rewrite <- Hc. lia.
-  - left. cbn. repeat split; try reflexivity; try congruence; try lia. now rewrite Hp.
+  - rewrite split_at_spec. cbn beta iota zeta. right. cbn. repeat split; try reflexivity. rewrite <- Hc. lia.
+  - cbn beta iota zeta. left. cbn. repeat split; try reflexivity; try congruence; try lia.
 Qed.
 
 Lemma wt_write_frozen p w : wt_failed w = true -> snd (wt_write p w) = w.
@@ -39,8 +39,7 @@ Qed.
 Lemma bw_flush_frozen b : wt_failed (bw_under b) = true -> wt_failed (bw_under (snd (bw_flush b))) = true.
 Proof.
   intros H. unfold bw_flush. destruct (bw_err b); [exact H|]. destruct (bw_n b =? 0); [exact H|].
-  rewrite wt_write_failed by exact H.
-  destruct (0 <? bw_n b); [rewrite split_at_spec|]; exact H.
+  rewrite wt_write_failed by exact H. cbn beta iota zeta. rewrite split_at_spec. exact H.
 Qed.
 
 Lemma bw_write_go_frozen fuel : forall p b, wt_failed (bw_under b) = true ->
@@ -112,4 +111,136 @@ Proof.
   intros H. unfold rtmp_write_message. pose proof (bw_copies_fwd o b H) as Hc.
   destruct (bw_copies o b) as [[e|] b1]; [exact Hc|]. cbn [snd] in Hc.
   eapply fwd_trans; [exact Hc|]. apply bw_flush_fwd. apply Hc.
+Qed.
+
+(* ---------- lock step of the two buffered writers ---------- *)
+Definition simb (i : N) (bf b0 : bufw) : Prop :=
+  bw_rev bf = bw_rev b0 /\ bw_n bf = bw_n b0 /\ bw_err bf = bw_err b0 /\ sim i (bw_under bf) (bw_under b0).
+Definition rb (i : N) (bf b0 : bufw) : Prop :=
+  simb i bf b0 \/ broken i (bw_under bf) (bw_under b0).
+
+Lemma sim_intact i wf w0 : sim i wf w0 -> intact w0.
+Proof. intros H. apply H. Qed.
+Lemma simb_not_broken i bf b0 : simb i bf b0 -> wt_failed (bw_under bf) = false.
+Proof. intros (_ & _ & _ & H). apply H. Qed.
+
+Lemma broken_step i wf wf' w0 w0' : broken i wf w0 -> wt_failed wf' = true -> fwd w0 w0' -> broken i wf' w0'.
+Proof. intros (_ & Hc & _) Hf [Hi Hle]. split; [exact Hf|]. split; [lia|exact Hi]. Qed.
+
+Lemma flush_rb i bf b0 : rb i bf b0 ->
+  rb i (snd (bw_flush bf)) (snd (bw_flush b0)) /\
+  (simb i (snd (bw_flush bf)) (snd (bw_flush b0)) -> fst (bw_flush bf) = fst (bw_flush b0)).
+Proof.
+  intros [Hs|Hb].
+  - destruct Hs as (Hr & Hn & He & Hsim). unfold bw_flush, bw_buf. rewrite Hr, Hn, He.
+    destruct (bw_err b0) as [e|] eqn:E0.
+    { cbn [snd fst]. split; [left; split; [exact Hr|split; [exact Hn|split; [congruence|exact Hsim]]]|reflexivity]. }
+    destruct (bw_n b0 =? 0).
+    { cbn [snd fst]. split; [left; split; [exact Hr|split; [exact Hn|split; [congruence|exact Hsim]]]|reflexivity]. }
+    pose proof (wt_write_sim i (concat (frev (bw_rev b0))) _ _ Hsim) as Hw.
+    destruct (wt_write (concat (frev (bw_rev b0))) (bw_under bf)) as [[mf ef] wf'].
+    destruct (wt_write (concat (frev (bw_rev b0))) (bw_under b0)) as [[m0 e0] w0'].
+    destruct Hw as [(Hs' & -> & -> & -> & ->)|Hbr].
+    + destruct (lenN (concat (frev (bw_rev b0))) <? bw_n b0).
+      * rewrite split_at_spec. cbn [snd fst]. split; [left; split; [reflexivity|split; [reflexivity|split; [reflexivity|exact Hs']]]|reflexivity].
+      * cbn [snd fst]. split; [left; split; [reflexivity|split; [reflexivity|split; [reflexivity|exact Hs']]]|reflexivity].
+    + assert (Hbr' : forall x y, bw_under x = wf' -> bw_under y = w0' -> rb i x y)
+        by (intros x y Hx Hy; right; rewrite Hx, Hy; exact Hbr).
+      split.
+      * destruct ef as [e1|], e0 as [e2|]; try destruct (mf <? bw_n b0); try destruct (m0 <? bw_n b0);
+          rewrite ?split_at_spec; cbn [snd]; apply Hbr'; reflexivity.
+      * intros Hsb. apply simb_not_broken in Hsb. exfalso.
+        destruct Hbr as (Hf' & _).
+        destruct ef as [e1|]; try destruct (mf <? bw_n b0); rewrite ?split_at_spec in Hsb; cbn [snd bw_under] in Hsb; congruence.
+  - split.
+    + right. pose proof Hb as (Hf & Hc & Hi).
+      apply (broken_step i (bw_under bf) _ (bw_under b0)); [exact Hb|now apply bw_flush_frozen|now apply bw_flush_fwd].
+    + intros Hsb. apply simb_not_broken in Hsb. rewrite bw_flush_frozen in Hsb by apply Hb. discriminate.
+Qed.
+
+Definition agree (i : N) (rf r0 : option N * bufw) : Prop :=
+  rb i (snd rf) (snd r0) /\ (simb i (snd rf) (snd r0) -> fst rf = fst r0).
+
+Lemma agree_broken i (rf r0 : option N * bufw) bf b0 :
+  broken i (bw_under bf) (bw_under b0) ->
+  wt_failed (bw_under (snd rf)) = true -> fwd (bw_under b0) (bw_under (snd r0)) -> agree i rf r0.
+Proof.
+  intros Hb Hf Hw. split.
+  - right. apply (broken_step i _ _ _ _ Hb Hf Hw).
+  - intros Hs. apply simb_not_broken in Hs. congruence.
+Qed.
+
+Lemma write_go_rb i fuel : forall p bf b0, rb i bf b0 ->
+  agree i (bw_write_go fuel p bf) (bw_write_go fuel p b0).
+Proof.
+  induction fuel as [|f IH]; intros p bf b0 [Hs|Hb].
+  - cbn [bw_write_go]. split; [now left|reflexivity].
+  - cbn [bw_write_go]. split; [now right|]. intros Hsb. apply simb_not_broken in Hsb. cbn [snd] in Hsb. destruct Hb; congruence.
+  - pose proof Hs as (Hr & Hn & He & Hsim). cbn [bw_write_go]. unfold bw_avail. rewrite Hr, Hn, He.
+    destruct (bw_err b0) as [e|] eqn:E0.
+    { cbn [snd fst]. split; [left; exact Hs|reflexivity]. }
+    destruct (bufio_size - bw_n b0 <? lenN p).
+    + destruct (bw_n b0 =? 0).
+      * pose proof (wt_write_sim i p _ _ Hsim) as Hw.
+        destruct (wt_write p (bw_under bf)) as [[mf ef] wf'].
+        destruct (wt_write p (bw_under b0)) as [[m0 e0] w0'].
+        rewrite !split_at_spec.
+        destruct Hw as [(Hs' & -> & -> & -> & ->)|Hbr].
+        -- apply IH. left. split; [reflexivity|]. split; [reflexivity|]. split; [reflexivity|exact Hs'].
+        -- apply IH. right. exact Hbr.
+      * rewrite !split_at_spec. cbn beta iota zeta.
+        set (b1f := mk_bufw _ bufio_size None (bw_under bf)). set (b10 := mk_bufw _ bufio_size None (bw_under b0)).
+        assert (H1 : rb i b1f b10) by (left; split; [reflexivity|split; [reflexivity|split; [reflexivity|exact Hsim]]]).
+        destruct (flush_rb i b1f b10 H1) as [H2 _].
+        destruct (bw_flush b1f) as [of b2f]. destruct (bw_flush b10) as [o0 b20]. apply IH. exact H2.
+    + cbn [snd fst]. split; [left|reflexivity]. split; [reflexivity|]. split; [reflexivity|]. split; [reflexivity|exact Hsim].
+  - apply (agree_broken i _ _ bf b0 Hb).
+    + apply bw_write_go_frozen. apply Hb.
+    + apply bw_write_go_fwd. apply Hb.
+Qed.
+
+Lemma copy_rb i p bf b0 : rb i bf b0 -> agree i (bw_copy_bytes p bf) (bw_copy_bytes p b0).
+Proof.
+  intros H. unfold bw_copy_bytes. destruct p as [|x p].
+  - split; [exact H|reflexivity].
+  - apply write_go_rb. exact H.
+Qed.
+
+Lemma copies_rb i ps : forall bf b0, rb i bf b0 -> agree i (bw_copies ps bf) (bw_copies ps b0).
+Proof.
+  induction ps as [|p ps IH]; intros bf b0 H; cbn [bw_copies].
+  - split; [exact H|reflexivity].
+  - destruct (copy_rb i p bf b0 H) as [H1 H2].
+    destruct H1 as [Hs|Hb].
+    + specialize (H2 Hs). destruct (bw_copy_bytes p bf) as [of b1f]. destruct (bw_copy_bytes p b0) as [o0 b10].
+      cbn [fst snd] in *. subst o0. destruct of as [e|].
+      * split; [left; exact Hs|reflexivity].
+      * apply IH. left. exact Hs.
+    + (* diverged inside this piece *)
+      assert (Hff : wt_failed (bw_under (snd (bw_copies (p :: ps) bf))) = true).
+      { cbn [bw_copies]. destruct (bw_copy_bytes p bf) as [[e|] b1f]; cbn [snd] in *; [apply Hb|].
+        apply bw_copies_frozen. apply Hb. }
+      assert (Hfw : fwd (bw_under (snd (bw_copy_bytes p b0))) (bw_under (snd (bw_copies (p :: ps) b0)))).
+      { cbn [bw_copies]. destruct (bw_copy_bytes p b0) as [[e|] b10]; cbn [snd] in *; [apply fwd_refl, Hb|].
+        apply bw_copies_fwd. apply Hb. }
+      cbn [bw_copies] in Hff, Hfw.
+      apply (agree_broken i _ _ _ _ Hb Hff Hfw).
+Qed.
+
+Lemma message_rb i o bf b0 : rb i bf b0 -> agree i (rtmp_write_message o bf) (rtmp_write_message o b0).
+Proof.
+  intros H. unfold rtmp_write_message. destruct (copies_rb i o bf b0 H) as [H1 H2].
+  destruct H1 as [Hs|Hb].
+  - specialize (H2 Hs). destruct (bw_copies o bf) as [of b1f]. destruct (bw_copies o b0) as [o0 b10].
+    cbn [fst snd] in *. subst o0. destruct of as [e|].
+    + split; [left; exact Hs|reflexivity].
+    + apply flush_rb. left. exact Hs.
+  - assert (Hff : wt_failed (bw_under (snd (rtmp_write_message o bf))) = true).
+    { unfold rtmp_write_message. destruct (bw_copies o bf) as [[e|] b1f]; cbn [snd] in *; [apply Hb|].
+      apply bw_flush_frozen. apply Hb. }
+    assert (Hfw : fwd (bw_under (snd (bw_copies o b0))) (bw_under (snd (rtmp_write_message o b0)))).
+    { unfold rtmp_write_message. destruct (bw_copies o b0) as [[e|] b10]; cbn [snd] in *; [apply fwd_refl, Hb|].
+      apply bw_flush_fwd. apply Hb. }
+    unfold rtmp_write_message in Hff, Hfw.
+    apply (agree_broken i _ _ _ _ Hb Hff Hfw).
 Qed.
